@@ -90,76 +90,78 @@ theorem C07_cell_corners (ex ey ez : Nat) (g : GridGeom) (hg : gridHyp [ex, ey, 
           geomAt [ex, ey, ez] g (expand [ex, ey, ez] (addIdx (unflatten (nonzeroExtents [ex, ey, ez]) c) δ)) :=
   cell_corners ex ey ez g hg c hc
 
-/-- **Reading a structured file gives the content of the lattice it describes** (model = spec): under the
-    well-formedness hypothesis `gridHyp`, for any lower ends of the extent, `readGrid` does not raise and the
-    field data it returns has
-    * as point content EVERY lattice point (each is a corner of some cell) with its coordinates and row
-      `pointIdx` of every point field,
-    * as cell content (pixel/voxel normalised to quad/hexahedron corner order) every lattice cell with the
-      coordinates of its corners in VTK order and row `c` of every cell field.
-    The right-hand sides are the explicit (unstructured) description of the lattice. -/
-theorem C07_read_content (a0 b0 c0 : Int) (ex ey ez : Nat) (g : GridGeom) (pfs : List PointField)
-    (cfs : List (String × NdArr)) (hg : gridHyp [ex, ey, ez] g pfs cfs = true) :
-    ∃ F, readGrid [a0, a0 + ex, b0, b0 + ey, c0, c0 + ez] g pfs cfs = some F ∧
-      F.pointContent = gridPointContent [ex, ey, ez] g pfs ∧
-      F.cellContent.map normCell = gridCellContent [ex, ey, ez] g cfs := by
-  obtain ⟨F, _, hF, _, _, _, hcells⟩ := read_cells a0 b0 c0 ex ey ez g pfs cfs hg
-  exact ⟨F, hF, read_points a0 b0 c0 ex ey ez g pfs cfs hg F hF, hcells⟩
+/-- **Extent offsets**: the geometry the reader hands to the mesh class (`shiftGeom`: for image data
+    `Origin + B·(spacing∘lo)` as origin — fix a3961d2 —, explicit coordinates otherwise) places lattice position
+    `pos` where VTK's semantics of the `Extent` attribute demands (`geomAtLo`: image data puts STRUCTURED INDEX
+    `lo + pos` at `Origin + B·(spacing∘index)`), for every lower end `lo`.  `shiftExact` only says that the model's
+    unit arithmetic is exact on the shift (trivially true for `lo = 0` and for rectilinear / structured data). -/
+theorem C07_extent_offset (lo : List Int) (ext : List Nat) (g : GridGeom) (pos : List Nat)
+    (hc : gridCtorOk ext g = true) (hx : shiftExact lo g = true) (hl : lo.length = 3) (hp : pos.length = 3) :
+    geomAtLo lo ext g pos = geomAt ext (shiftGeom lo g) pos :=
+  geomAtLo_shift lo ext g pos hc hx hl hp
 
-/-- **Formats agree**: two well-formed descriptions (any of image / rectilinear / structured, extents starting
-    anywhere) of one lattice — same extents, every lattice point at the same coordinates (`sameGeometry`), the same
-    field arrays — read to field data with EQUAL point content and EQUAL cell content up to pixel~quad /
-    voxel~hexahedron; both equal the explicit description (`C07_read_content`). -/
-theorem C07_formats_agree (a1 b1 c1 a2 b2 c2 : Int) (ex ey ez : Nat) (g1 g2 : GridGeom) (pfs : List PointField)
-    (cfs : List (String × NdArr)) (h1 : gridHyp [ex, ey, ez] g1 pfs cfs = true)
-    (h2 : gridHyp [ex, ey, ez] g2 pfs cfs = true) (hgeo : sameGeometry [ex, ey, ez] g1 g2) :
-    ∃ F1 F2, readGrid [a1, a1 + ex, b1, b1 + ey, c1, c1 + ez] g1 pfs cfs = some F1 ∧
-      readGrid [a2, a2 + ex, b2, b2 + ey, c2, c2 + ez] g2 pfs cfs = some F2 ∧
-      F1.pointContent = F2.pointContent ∧ F1.cellContent.map normCell = F2.cellContent.map normCell := by
-  obtain ⟨F1, hF1, hp1, hc1⟩ := C07_read_content a1 b1 c1 ex ey ez g1 pfs cfs h1
-  obtain ⟨F2, hF2, hp2, hc2⟩ := C07_read_content a2 b2 c2 ex ey ez g2 pfs cfs h2
-  refine ⟨F1, F2, hF1, hF2, ?_, ?_⟩
-  · rw [hp1, hp2, gridPointContent_congr _ g1 g2 pfs hgeo]
-  · rw [hc1, hc2, gridCellContent_congr ex ey ez (gridHyp_pos ex ey ez g1 pfs cfs h1) g1 g2 cfs hgeo]
-
-/-- **Extent offsets, partial**: what the code computes (`geomAt`: positions counted from 0) is what VTK's
-    semantics of the `Extent` attribute demands (`geomAtLo`: image data places STRUCTURED INDEX `lo + pos` at
-    `origin + D·(spacing∘index)`) for rectilinear and structured descriptions always, and for image data when the
-    extent starts at 0.  Full statement (no hypothesis on `lo`) is FALSE for the code as it is: see
-    `Witness/C07.lean` (`.vti` piece with `Extent="1 2 …"`; finding F14). -/
-theorem C07_extent_offset_partial (lo : List Int) (ext : List Nat) (g : GridGeom) (pos : List Nat)
-    (h : imageOffset lo g = false) (hl : lo.length = 3) (hp : pos.length = 3) :
-    geomAtLo lo ext g pos = geomAt ext g pos := by
-  cases g with
-  | image U o b s =>
-    simp only [imageOffset, List.any_eq_false, bne_iff_ne, ne_eq, Decidable.not_not] at h
-    match lo, hl, pos, hp with
-    | [l0, l1, l2], _, [p0, p1, p2], _ =>
-      have h0 := h l0 (by simp); have h1 := h l1 (by simp); have h2 := h l2 (by simp)
-      subst h0 h1 h2
-      simp [geomAtLo, geomAt, imagePoint]
-  | rect ords => rfl
-  | struct pts => rfl
-
-/-- **File content, partial**: with the same hypothesis the content VTK's semantics assigns to a structured
-    file (`filePointContent` / `fileCellContent`, extent lower ends `lo` taken into account) is the content
-    `C07_read_content` proves the reader returns.  (For image data with `lo ≠ 0` the two differ: F14.) -/
-theorem C07_file_content_partial (lo : List Int) (ext : List Nat) (g : GridGeom) (pfs : List PointField)
-    (cfs : List (String × NdArr)) (h : imageOffset lo g = false) (hl : lo.length = 3) (he : ext.length = 3) :
-    filePointContent lo ext g pfs = gridPointContent ext g pfs ∧
-    fileCellContent lo ext g cfs = gridCellContent ext g cfs := by
+/-- **File content**: the content VTK's semantics assigns to a structured file (`filePointContent` /
+    `fileCellContent`, extent lower ends `lo` taken into account) is the lattice content of the description the
+    reader builds. -/
+theorem C07_file_content (lo : List Int) (ext : List Nat) (g : GridGeom) (pfs : List PointField)
+    (cfs : List (String × NdArr)) (hc : gridCtorOk ext g = true) (hx : shiftExact lo g = true)
+    (hl : lo.length = 3) (he : ext.length = 3) :
+    filePointContent lo ext g pfs = gridPointContent ext (shiftGeom lo g) pfs ∧
+    fileCellContent lo ext g cfs = gridCellContent ext (shiftGeom lo g) cfs := by
   constructor
   · unfold filePointContent gridPointContent
     apply List.map_congr_left
     intro p _
-    rw [C07_extent_offset_partial lo ext g _ h hl (by simp [unflatten_length, he])]
+    rw [geomAtLo_shift lo ext g _ hc hx hl (by simp [unflatten_length, he])]
   · unfold fileCellContent gridCellContent
+    rw [shiftGeom_kind]
     apply List.map_congr_left
     intro c _
     congr 1
     apply List.map_congr_left
     intro δ _
-    rw [C07_extent_offset_partial lo ext g _ h hl (by simp [expand_length, he])]
+    rw [geomAtLo_shift lo ext g _ hc hx hl (by simp [expand_length, he])]
+
+/-- **Reading a structured file gives the content of the lattice it describes** (model = spec): under the
+    well-formedness hypothesis `gridHyp`, for ANY lower ends of the extent, `readGrid` does not raise and the
+    field data it returns has
+    * as point content EVERY lattice point (each is a corner of some cell) with the coordinates VTK's semantics
+      gives it and row `pointIdx` of every point field,
+    * as cell content (pixel/voxel normalised to quad/hexahedron corner order) every lattice cell with the
+      coordinates of its corners in VTK order and row `c` of every cell field.
+    The right-hand sides are the explicit (unstructured) description of the file's lattice. -/
+theorem C07_read_content (a0 b0 c0 : Int) (ex ey ez : Nat) (g : GridGeom) (pfs : List PointField)
+    (cfs : List (String × NdArr)) (hg : gridHyp [ex, ey, ez] g pfs cfs = true)
+    (hx : shiftExact [a0, b0, c0] g = true) :
+    ∃ F, readGrid [a0, a0 + ex, b0, b0 + ey, c0, c0 + ez] g pfs cfs = some F ∧
+      F.pointContent = filePointContent [a0, b0, c0] [ex, ey, ez] g pfs ∧
+      F.cellContent.map normCell = fileCellContent [a0, b0, c0] [ex, ey, ez] g cfs := by
+  have hg' := gridHyp_shift _ [a0, b0, c0] g pfs cfs hg
+  obtain ⟨F, _, hF, _, _, _, hcells⟩ := read_cells a0 b0 c0 ex ey ez _ pfs cfs hg'
+  have hfile := C07_file_content [a0, b0, c0] [ex, ey, ez] g pfs cfs (gridHyp_ctor _ g pfs cfs hg) hx rfl rfl
+  refine ⟨F, by simpa [readGrid, lowerEnds] using hF, ?_, ?_⟩
+  · rw [hfile.1]; exact read_points a0 b0 c0 ex ey ez _ pfs cfs hg' F hF
+  · rw [hfile.2]; exact hcells
+
+/-- **Formats agree**: two well-formed descriptions (any of image / rectilinear / structured, extents starting
+    anywhere) of one lattice — same extents, every lattice point at the same coordinates in VTK's semantics
+    (`sameGeometry` of the descriptions the readers build), the same field arrays — read to field data with EQUAL point content and EQUAL cell content
+    up to pixel~quad / voxel~hexahedron; both equal the explicit description (`C07_read_content`). -/
+theorem C07_formats_agree (a1 b1 c1 a2 b2 c2 : Int) (ex ey ez : Nat) (g1 g2 : GridGeom) (pfs : List PointField)
+    (cfs : List (String × NdArr)) (h1 : gridHyp [ex, ey, ez] g1 pfs cfs = true)
+    (h2 : gridHyp [ex, ey, ez] g2 pfs cfs = true) (hx1 : shiftExact [a1, b1, c1] g1 = true)
+    (hx2 : shiftExact [a2, b2, c2] g2 = true)
+    (hgeo : sameGeometry [ex, ey, ez] (shiftGeom [a1, b1, c1] g1) (shiftGeom [a2, b2, c2] g2)) :
+    ∃ F1 F2, readGrid [a1, a1 + ex, b1, b1 + ey, c1, c1 + ez] g1 pfs cfs = some F1 ∧
+      readGrid [a2, a2 + ex, b2, b2 + ey, c2, c2 + ez] g2 pfs cfs = some F2 ∧
+      F1.pointContent = F2.pointContent ∧ F1.cellContent.map normCell = F2.cellContent.map normCell := by
+  obtain ⟨F1, hF1, hp1, hc1⟩ := C07_read_content a1 b1 c1 ex ey ez g1 pfs cfs h1 hx1
+  obtain ⟨F2, hF2, hp2, hc2⟩ := C07_read_content a2 b2 c2 ex ey ez g2 pfs cfs h2 hx2
+  have f1 := C07_file_content [a1, b1, c1] [ex, ey, ez] g1 pfs cfs (gridHyp_ctor _ g1 pfs cfs h1) hx1 rfl rfl
+  have f2 := C07_file_content [a2, b2, c2] [ex, ey, ez] g2 pfs cfs (gridHyp_ctor _ g2 pfs cfs h2) hx2 rfl rfl
+  refine ⟨F1, F2, hF1, hF2, ?_, ?_⟩
+  · rw [hp1, hp2, f1.1, f2.1, gridPointContent_congr _ _ _ pfs hgeo]
+  · rw [hc1, hc2, f1.2, f2.2, gridCellContent_congr ex ey ez (gridHyp_pos ex ey ez g1 pfs cfs h1) _ _ cfs hgeo]
 
 /-- **meshio bridge, partial**: for a well-formed meshio mesh in which every cell type occurs in AT MOST ONE
     block, `from_meshio` does not raise and preserves the content: every cell of every block with its corner
